@@ -372,7 +372,16 @@ func (s *Sim) generateBlock() *BlockSpec {
 	}
 	// agents act on the committed state
 	for _, a := range s.agents {
-		a.Step(s)
+		func() {
+			// agents call the chain's own query/price functions, which can panic on degenerate
+			// states (a real client would just see a failed query)
+			defer func() {
+				if r := recover(); r != nil {
+					s.Stats.Inc("probe/agent_query_panicked", 1)
+				}
+			}()
+			a.Step(s)
+		}()
 	}
 	spec.Txs = s.propose()
 	return spec
